@@ -480,6 +480,13 @@ def explore(fn, max_paths=20000, max_decisions=4000, stop_after_violations=3, ti
             pass
         except UnwindLimit as e:
             res.limit = "unwind: %s" % e
+        except (Unsupported, SolverUnknown) as e:
+            # this path left the modelled subset: the run can no longer end in "holds", but the other paths are still
+            # explored (a violation found on one of them is replayed natively like any other)
+            res.incomplete.append("path abandoned: %s: %s" % (type(e).__name__, str(e).splitlines()[0][:200]))
+            res.abandoned = getattr(res, "abandoned", 0) + 1
+            if res.abandoned > 200:
+                res.limit = "more than 200 paths left the modelled subset"
         finally:
             CTX = None
         res.paths += 1
@@ -498,6 +505,8 @@ def explore(fn, max_paths=20000, max_decisions=4000, stop_after_violations=3, ti
         plan = [list(t) for t in trail[:-1]] + [[not trail[-1][0], True]]
         if res.paths >= max_paths:
             res.limit = "path limit %d" % max_paths
+            break
+        if getattr(res, "abandoned", 0) > 200:
             break
         if len(res.violations) >= stop_after_violations:
             res.limit = res.limit or "stopped after %d violations" % len(res.violations)
